@@ -25,9 +25,15 @@ Small == { P(n) : n \in {"i8", "i64", "u128"} }
 Red == D0 \cup { St(fs) : fs \in [1 .. 2 -> Small] } \cup { Ar(3, P(n)) : n \in {"i8", "u16", "i64"} }
           \cup { Op(P(n)) : n \in {"i8", "i64", "i256", "str"} }
 Inner == { St(fs) : fs \in [1 .. 2 -> Small] } \cup { St(<<P("i8"), P("i32"), P("u16")>>), St(<<P("u16"), P("i256"), P("bool")>>) }
+(* results whose payloads are not primitives: sizes that are not multiples of the union alignment *)
+RsP == D0 \cup { Ar(3, P(n)) : n \in {"i8", "u16", "i32"} }
+          \cup { St(<<P("i32"), P("i32"), P("i32")>>), St(<<P("i8"), P("i8"), P("i8")>>), St(<<P("i64"), P("i8")>>) }
+RS2 == { Rs(o, e) : o \in RsP, e \in RsP } \ { Rs(o, e) : o \in D0, e \in D0 }
+
 D2 == { St(fs) : fs \in SeqsUpTo(Red, 3) \ SeqsUpTo(D0, 3) }
       \cup { Ar(c, e) : c \in {2, 3}, e \in Inner } \cup { Op(e) : e \in Inner }
       \cup { St(<<P("i8"), Op(e), P("u16")>>) : e \in Inner } \cup { St(<<P("bool"), Ar(2, e), P("i8")>>) : e \in Inner }
+      \cup RS2
 
 Two == { P("i8"), P("i64") }
 FAM == { St(fs) : fs \in [1 .. 5 -> Two] } \cup { St(fs) : fs \in [1 .. 6 -> Two] }
